@@ -94,6 +94,8 @@ class C10(E1Check):
         progs.append({"scenario": "copy"})
         progs.append({"scenario": "owner-gone"})
         progs.append({"scenario": "redispatch"})
+        progs.append({"scenario": "refused-list"})
+        progs.append({"scenario": "slots"})
         return progs
 
     def work(self, unit: Any, tier: str) -> dict:
@@ -129,7 +131,68 @@ class C10(E1Check):
                 async for ev in stream:
                     sink.append(ev)
 
-            if unit["scenario"] == "redispatch":
+            if unit["scenario"] == "refused-list":
+                # a stream over [bound signal, class-level signal] is refused (UnboundSignal): the bound signal must not keep anything of it
+                from asphalt.core import UnboundSignal, stream_events
+
+                src = Src()
+                try:
+                    async with stream_events([src.a, Src.a]):
+                        fails.append(("refused-list", "a stream over a list containing a class-level signal was opened"))
+                except UnboundSignal:
+                    pass
+                got: list = []
+                async with src.a.stream_events() as st_:
+                    async with anyio.create_task_group() as tg:
+                        tg.start_soon(consume, st_, got)
+                        await anyio.wait_all_tasks_blocked()
+                        try:
+                            src.a.dispatch(Ev(1))
+                        except BaseException as e:  # noqa: BLE001
+                            fails.append(("dispatch-raised", f"dispatch after a refused multi-signal stream raised {e!r}"))
+                        await anyio.wait_all_tasks_blocked()
+                        tg.cancel_scope.cancel()
+                if [e.n for e in got] != [1]:
+                    fails.append(("delivery", f"a subscriber that arrived after a refused multi-signal stream received {[e.n for e in got]}, expected [1]"))
+            elif unit["scenario"] == "slots":
+                # subscribers come and go in every order: S0 in, S1 in, S0 out, S2 in - S1 and S2 both keep receiving
+                import contextlib
+
+                for order in ("0in 1in 0out 2in", "0in 1in 2in 1out 3in 0out 4in"):
+                    src = Src()
+                    sinks: dict = {}
+                    scopes: dict = {}
+
+                    async def subscriber(k: str, scope: Any, started: Any) -> None:
+                        with scope:
+                            async with src.a.stream_events() as stream:
+                                started.set()
+                                async for ev in stream:
+                                    sinks[k].append(ev)
+
+                    async with anyio.create_task_group() as tg:
+                        for step in order.split():
+                            k = step[0]
+                            if step.endswith("in"):
+                                scopes[k] = anyio.CancelScope()
+                                sinks[k] = []
+                                started = anyio.Event()
+                                tg.start_soon(subscriber, k, scopes[k], started)
+                                await started.wait()
+                                await anyio.wait_all_tasks_blocked()
+                            else:
+                                scopes.pop(k).cancel()
+                                await anyio.wait_all_tasks_blocked()
+                        try:
+                            src.a.dispatch(Ev(9))
+                        except BaseException as e:  # noqa: BLE001
+                            fails.append(("dispatch-raised", f"dispatch raised {e!r}"))
+                        await anyio.wait_all_tasks_blocked()
+                        for k in sorted(scopes):
+                            if [e.n for e in sinks[k]] != [9]:
+                                fails.append(("delivery", f"history '{order}': active subscriber S{k} received {[e.n for e in sinks[k]]}, expected [9]"))
+                        tg.cancel_scope.cancel()
+            elif unit["scenario"] == "redispatch":
                 # one event object relayed: dispatched again on another signal / another instance, it is stamped by THAT dispatch
                 class Two:
                     a = Signal(Ev)
